@@ -287,16 +287,29 @@ class UnionMatcher(AdditiveBiMatcher):
         elif not b.is_active():
             return a.skip_to_quality(minquality)
 
+        # A block of one sub-matcher can only be skipped if none of its
+        # documents can reach the minimum quality even with the best possible
+        # contribution from the other sub-matcher. The other sub-matcher's
+        # *current block* says nothing about that (its later blocks may
+        # overlap the skipped one), so use its overall maximum quality.
         skipped = 0
-        aq = a.block_quality()
-        bq = b.block_quality()
-        while a.is_active() and b.is_active() and aq + bq < minquality:
-            if aq < bq:
-                skipped += a.skip_to_quality(minquality - bq)
-                aq = a.block_quality()
+        while a.is_active() and b.is_active():
+            aq = a.block_quality()
+            bq = b.block_quality()
+            if aq + bq > minquality:
+                break
+
+            a_min = minquality - b.max_quality()
+            b_min = minquality - a.max_quality()
+            if aq <= a_min:
+                sk = a.skip_to_quality(a_min)
+            elif bq <= b_min:
+                sk = b.skip_to_quality(b_min)
             else:
-                skipped += b.skip_to_quality(minquality - aq)
-                bq = b.block_quality()
+                sk = 0
+            if not sk:
+                break
+            skipped += sk
 
         return skipped
 
